@@ -52,7 +52,7 @@ else:
         if table(N.root) != [not bool(x) for x in f]: bad.append('~ denotes %%s' %% table(N.root))
         if not ((~N).root is F.root): bad.append('double negation is a different root')
         bad += wellformed(N.root)
-    elif op == 'restrict':
+    elif op.startswith('restrict'):
         asgs = [dict(zip(order, bits)) for bits in itertools.product([False, True], repeat=len(order))]
         for v in order:
             for b in (False, True, 0, 1):
@@ -97,6 +97,18 @@ def _task(kind, k, op, order, fixed=None):
     return bdd.unary_task(k, op, order)
 
 
+def rich_tables(order):
+    """truth tables (along `order`, 4 variables) of a few functions whose diagrams have inner nodes on several levels and shared sub-diagrams"""
+    out = {}
+    fns = {'a^c': lambda a, b, c, d: a != c, '(a&b)|(c&d)': lambda a, b, c, d: (a and b) or (c and d), 'a^b^c^d': lambda a, b, c, d: (a + b + c + d) % 2 == 1,
+           'maj(a,b,c)^d': lambda a, b, c, d: ((a + b + c) >= 2) != d, '(c&d)&(~a|b)': lambda a, b, c, d: c and d and ((not a) or b),
+           'a?(b^d):(c|d)': lambda a, b, c, d: (b != d) if a else (c or d), '(a|b)&(c|d)': lambda a, b, c, d: (a or b) and (c or d), 'b^d': lambda a, b, c, d: b != d}
+    import itertools as _it
+    for nm, fn in fns.items():
+        out[nm] = [bool(fn(*[bool(x) for x in bits])) for bits in _it.product([0, 1], repeat=len(order))]
+    return out
+
+
 def literal_tables(order):
     """truth tables (along `order`) of the literals v, ~v and the constants"""
     k = len(order)
@@ -132,6 +144,21 @@ def bdd_tasks(tier):
     for name in ('a', '~b', 'c', '~d', 'b', '~c', 'd', '~a'):
         t.append(('pair', 4, 'and' if name[0] != '~' else 'or', o4, {'f%d' % i: b for i, b in enumerate(l4[name])}))
         t.append(('pair', 4, 'xor' if name[0] != '~' else 'and', o4, {'g%d' % i: b for i, b in enumerate(l4[name])}))
+    # 4 variables: restrict on each variable separately (all 65,536 functions per run)
+    for v in o4:
+        t.append(('unary', 4, 'restrict:' + v, o4))
+    # 4 variables: one operand pinned to a function that is NOT a literal (both operands have inner nodes on several levels)
+    rich = rich_tables(o4)
+    pins = [('a^c', 'xor', 'f'), ('(a&b)|(c&d)', 'and', 'g'), ('a^b^c^d', 'or', 'f'), ('maj(a,b,c)^d', 'xor', 'g')]
+    if tier == 'thorough':
+        r = rng('bdd-pins')
+        pins += [(nm, op, side) for nm in rich for op in ('and', 'or', 'xor') for side in ('f', 'g') if (nm, op, side) not in pins]
+        for j in range(24):
+            tab = [bool(r.randrange(2)) for _ in range(16)]
+            rich['seeded#%d' % j] = tab
+            pins.append(('seeded#%d' % j, ('and', 'or', 'xor')[j % 3], 'fg'[j % 2]))
+    for nm, op, side in pins:
+        t.append(('pair', 4, op, o4, {'%s%d' % (side, i): b for i, b in enumerate(rich[nm])}))
     if tier == 'thorough':
         for op in ('and', 'or', 'xor'):
             t.append(('pair', 3, op, ['a', 'b', 'c']))
